@@ -503,6 +503,14 @@ _C14.append(
     {'module': 'boltons.strutils', 'qualname': 'args2cmd', 'lean_name': 'args2cmd',
      'params': {'args': 'List Str', 'sep': 'Str'},
      'kind': 'function', 'result': 'Str', 'raises': True, 'tie_theorem': 'C14.src_args2cmd_eq_model'})
+# `escape_shell_args` (round 3f): `sys.platform` is a spec-declared EXTERNAL INPUT (rule `extern` of py2lean_c14: the
+# trailing parameter `_sys_platform`; the self-test patches the real attribute for the call: `py_call`); a falsy style
+# (`None` / `''`) is the empty string, as in the model.
+_C14.append(
+    {'module': 'boltons.strutils', 'qualname': 'escape_shell_args', 'lean_name': 'escape_shell_args',
+     'params': {'args': 'List Str', 'sep': 'Str', 'style': 'Str', '_sys_platform': 'Str'},
+     'extern_params': {'sys.platform': '_sys_platform'}, 'py_call': True,
+     'kind': 'function', 'result': 'Str', 'raises': True, 'tie_theorem': 'C14.src_escape_shell_args_eq_model'})
 C14_PENDING = []
 for _sp in _C14:
     _sp.update(ext='py2lean_c14', gen_file=_C14_GEN)
